@@ -18,7 +18,7 @@ def _samples(symbols, n, seed=20240607, domain=None):
                 env[s] = sp.Rational(rnd.randint(int(rng[0]), int(rng[1])), 100)
                 continue
             if s.is_integer:
-                env[s] = sp.Integer(rnd.randint(1, 7) if s.is_nonnegative or s.is_positive else rnd.randint(-6, 7))
+                env[s] = sp.Integer(rnd.randint(1, 60) if s.is_nonnegative or s.is_positive else rnd.choice((1, 1, -1)) * rnd.randint(1, 60))
             elif s.is_positive or s.is_nonnegative:
                 env[s] = sp.Rational(rnd.randint(10, 95), 100)
             else:
@@ -61,6 +61,29 @@ def decide_zero(expr, tries=6, domain=None):
         s = expr
     if s == 0:
         return ('zero', None)
+    # uninterpreted functions of the reader: the ones with a known meaning get it, the others become fresh unknowns (sampled like symbols)
+    for _ in range(4):
+        fa = s.atoms(sp.core.function.AppliedUndef)
+        if not fa:
+            break
+        rep = {}
+        for a in fa:
+            nm = str(a.func)
+            if nm == 'trunc' and len(a.args) == 1:
+                rep[a] = sp.sign(a.args[0]) * sp.floor(sp.Abs(a.args[0]))
+            elif nm == 'idiv' and len(a.args) == 2:
+                q_ = a.args[0] / a.args[1]
+                rep[a] = sp.sign(q_) * sp.floor(sp.Abs(q_))
+            elif nm == 'fmod' and len(a.args) == 2:
+                q_ = a.args[0] / a.args[1]
+                rep[a] = a.args[0] - a.args[1] * sp.sign(q_) * sp.floor(sp.Abs(q_))
+            elif nm == 'mod2pi' and len(a.args) == 1:
+                rep[a] = a.args[0] - 2 * sp.pi * sp.floor(a.args[0] / (2 * sp.pi))
+            elif not any(isinstance(x_, sp.core.function.AppliedUndef) for arg_ in a.args for x_ in sp.preorder_traversal(arg_)):
+                rep[a] = sp.Symbol('fn:' + str(a), real=True)
+        if not rep:
+            break
+        s = s.xreplace(rep)
     if s.atoms(sp.core.function.AppliedUndef):
         return ('unknown', 'uninterpreted function in the residual')
     syms = s.free_symbols
